@@ -276,7 +276,7 @@ def layout(cls):
 # ---------------------------------------------------------------------------------------------
 # values
 
-def mkval(v, classes):
+def mkval(v, classes, msg=None):
     t = v["t"]
     if t == "int":
         return int(v["v"])
@@ -305,7 +305,8 @@ def mkval(v, classes):
     if t == "struct":
         return classes[v["cls"]].from_buffer_copy(bytes(v["raw"]))
     if t in ("arr", "sarr"):
-        donor = classes[v["cls"]].from_buffer_copy(bytes(v["raw"]))
+        # the bound array object of a field: of the message being assigned to ("self") or of another instance
+        donor = msg if (v.get("self") and msg is not None) else classes[v["cls"]].from_buffer_copy(bytes(v["raw"]))
         return getattr(donor, v["field"])
     raise ValueError(f"unknown valspec {v}")
 
@@ -355,7 +356,7 @@ def run_op(op, classes):
     cls = classes[op["cls"]]
     msg = cls.from_buffer_copy(bytes.fromhex(op["init"]))
     before = bytes(msg)
-    val = mkval(op["val"], classes)
+    val = mkval(op["val"], classes, msg)
     key = mkkey(op.get("key"))
     leaf = navigate(msg, op.get("path", []))
     fname = op["field"]
